@@ -47,7 +47,16 @@ pub fn decode(tape: &[u16]) -> Case {
     let use_doc = t.chance(2, 3);
     // occasionally a long run of text after the generated prefix (withheld text would show)
     let long_tail = if t.chance(1, 8) { 3000 } else { 0 };
-    let (input, d) = if use_doc {
+    let (input, d) = if t.chance(1, 6) {
+        // raw-text / escaped-script soup: abandoned end-tag candidates and escape look-aheads
+        const F: &[&str] = &["<script>", "<!--", "-->", "</scrip-", "</scripx", "<script", "<script>", "</script", "</scrip", "x", " y ", "-", "--", "<", "</", "<!", "<title>", "</titl-", "<style>", "</sty e", "<textarea>", "</textarea-", "</", "</a-", "<scr ipt", "<!-", "</scriptx"];
+        let n = t.range(1, 8);
+        let mut v = Vec::new();
+        for _ in 0..n {
+            v.extend_from_slice(t.pick(F).as_bytes());
+        }
+        (v, None)
+    } else if use_doc {
         let d = doc(&mut t, &DocOpts { max_items: 7, max_attrs: 2, ..DocOpts::default() });
         (d.bytes.clone(), Some(d))
     } else {
@@ -142,7 +151,11 @@ pub fn check_case(c: &Case, st: &mut Stats) -> PResult {
     let mut input = c.input.clone();
     let n0 = input.len();
     if c.long_tail > 0 {
-        input.extend(std::iter::repeat_n(b'z', c.long_tail));
+        // the tail starts with a space and contains spaces, so it can never extend a tag name
+        // or an end-tag candidate
+        for i in 0..c.long_tail {
+            input.push(if i % 2 == 0 { b' ' } else { b'z' });
+        }
     }
     let n = input.len();
     // reference: fresh rewriter, the prefix in ONE write
@@ -207,6 +220,15 @@ pub fn check_case(c: &Case, st: &mut Stats) -> PResult {
             }
         }
     }
+    if c.doc.is_none() && c.long_tail > 0 && c.hk == HK::None && !crate::gens::soup::contains_ci(&c.input, "<svg") && !crate::gens::soup::contains_ci(&c.input, "<math") {
+        // without handlers and outside foreign content, kilobytes of plain text after ANY prefix
+        // can never be pending: at most an unfinished tag name / look-ahead made of the tail's
+        // first bytes plus the prefix's last construct start
+        let pending = n - single_full;
+        let allowed = n0.min(64) + 16;
+        ensure!(pending <= allowed, "C09: {pending} bytes withheld after a {n0}-byte prefix followed by {} plain text bytes with no handlers\n  prefix={:?}", c.long_tail, show(&c.input));
+        st.label("soup_long_tail_checked");
+    }
     st.label(&format!("handlers_{:?}", c.hk));
     st.label_if(c.doc.is_some(), "layout_bound_checked");
     st.label_if(c.long_tail > 0, "long_text_tail");
@@ -243,6 +265,11 @@ impl Prop for C09 {
                 Ok(())
             }),
         }, FixedCase {
+            name: "bogus-comment-after-end-tag-open",
+            finding: Some("C09-bogus-comment-end-tag-open-unmark"),
+            what: "with no handlers '</ ' (a bogus comment) followed by kilobytes of text must not be withheld until the next '>'",
+            run: Box::new(|st| check_case(&Case { input: b"a</".to_vec(), doc: None, hk: HK::None, random: vec![], long_tail: 3000 }, st)),
+        }, FixedCase {
             name: "escaped-script-end-tag-candidate",
             finding: Some("C09-escaped-end-tag-name-unmark"),
             what: "after '<script><!--</scrip-' (abandoned end tag candidate in escaped script data) following text must not be withheld",
@@ -260,8 +287,8 @@ impl Prop for C09 {
     }
     fn plan(&self, tier: Tier) -> Plan {
         match tier {
-            Tier::Quick => Plan { cases: 60_000, tape_len: 200 },
-            Tier::Thorough => Plan { cases: 2_000_000, tape_len: 260 },
+            Tier::Quick => Plan { cases: 300_000, tape_len: 200 },
+            Tier::Thorough => Plan { cases: 8_000_000, tape_len: 260 },
         }
     }
     fn run(&self, tape: &[u16], st: &mut Stats) -> PResult {
